@@ -33,7 +33,7 @@ ASSUMPTIONS = ["probes are (description, amount) pairs whose classification does
 FEATURES = ["tagonly-first", "variable", "let-field", "not-contains", "weekday", "in-description"]
 
 STMT = [("01/05/2025", "NETFLIX.COM 1", "15.50"), ("01/06/2025", "UBER EATS 22", "30.00"), ("01/07/2025", "UBER TRIP", "150.00"), ("02/03/2025", "COFFEE BAR", "4.50"),
-        ("02/04/2025", "SQ *COFFEE CART", "5.50"), ("02/05/2025", "MYSTERY SHOP", "99.75"), ("02/06/2025", "ODD PLACE", "20.00"), ("02/07/2025", "ODD PLACE", "21.25"),
+        ("02/04/2025", "SQ *COFFEE CART", "5.50"), ("02/05/2025", "MYSTERY SHOP", "99.75"), ("02/06/2025", "ODD PLACE", "19.99"), ("02/07/2025", "ODD PLACE", "4.35"),
         # two identical uncategorised charges on one day (each counts), and one whose description holds a run of blanks
         ("02/08/2025", "TWIN CHARGE", "7.25"), ("02/08/2025", "TWIN CHARGE", "7.25"), ("02/09/2025", "ACME  CORP   55", "12.00"),
         # a rule-named merchant (ODDCASE) and an uncategorised one whose derived name differs from it only in letter case (Oddcase)
@@ -88,7 +88,7 @@ def rules_text(feats, transform, supplemental):
     return "\n".join(pre) + "\n\n" + "\n".join(rules)
 
 
-CSV_RULES = "Pattern,Merchant,Category,Subcategory,Tags\nNETFLIX,Netflix,Subs,Streaming,video\nUBER\\s(?!EATS),Uber,Transport,Ride,ride\nUBER,Uber Eats,Food,Takeout,\nCOFFEE[amount<100],Coffee,Food,Cafe,\n.*[amount>100],Large,,,large\n"
+CSV_RULES = "Pattern,Merchant,Category,Subcategory,Tags\nNETFLIX,Netflix,Subs,Streaming,video\nNETFLIX\\.COM,Netflix Web,Subs,Web,\nUBER\\s(?!EATS),Uber,Transport,Ride,ride\nUBER,Uber Eats,Food,Takeout,\nCOFFEE[amount<100],Coffee,Food,Cafe,\n.*[amount>100],Large,,,large\n"
 
 
 def bounds(tier):
